@@ -7,7 +7,7 @@
     any subset of panicking calls, spurious wake-ups included.  [code_cfg] is
     the configuration read from pool.rs by tools/extract_consts.py. *)
 From DivanV Require Import Base.Res Generated.Consts Generated.Consts2 Model.Pool Proofs.Pool Proofs.PoolLive Proofs.PoolCalls
-  Proofs.PoolViews Proofs.PoolSlots Proofs.PoolExamples Proofs.PoolBool Proofs.PoolMonitor.
+  Proofs.PoolViews Proofs.PoolSlots Proofs.PoolExamples Proofs.PoolBool Proofs.PoolMonitor Proofs.PoolVec.
 Import PoolM.
 
 (** Obligations on the generated constants: the worker unparks iff [fetch_sub]
@@ -116,6 +116,21 @@ Theorem C06_results_indexed : forall scr s r,
        nth_error (r_slots r) i = Some (if vmem (r_b r, i) (panics s) then None else Some i).
 Proof. exact (fun scr s r => results_indexed_returned code_cfg scr s r C06_cfg_good). Qed.
 Print Assumptions C06_results_indexed.
+
+(** ... and they land in the caller's vector as a suffix: for a vector with
+    [length v_elems <= v_cap] (any contents: reused after [clear()], appended to,
+    little spare room), [par_extend] (reserve_exact(n+1), pre-clear of the spare
+    slots, set_len, slot [old_len + i] written by call [i]) never violates
+    [set_len]'s precondition, leaves the old elements in place, appends exactly
+    the [n + 1] result slots [sl] of the broadcast and never shrinks the capacity. *)
+Theorem C06_par_extend_vector : forall v n sl,
+  length (v_elems v) <= v_cap v -> length sl = S n ->
+  exists v', par_extend_vec v n sl = Ok v'
+             /\ v_elems v' = v_elems v ++ sl
+             /\ length (v_elems v') <= v_cap v'
+             /\ v_cap v <= v_cap v'.
+Proof. exact par_extend_vector. Qed.
+Print Assumptions C06_par_extend_vector.
 
 (** Worker threads are created only when a broadcast needs more than exist
     (exactly the missing ones, appended, idle) and no step ever removes one. *)
